@@ -448,7 +448,7 @@ pub fn run_one(run: u64, seed: u64) -> RunOut {
 }
 
 /// Flood classes for the memory oracle. Each returns the frames of one burst.
-pub const FLOODS: [&str; 6] = ["zero-port-portdata", "ping", "empty-data-within-credit", "openport-to-dropped-listener", "credits-small", "portdata-rejected-ports"];
+pub const FLOODS: [&str; 9] = ["zero-port-portdata", "ping", "empty-data-within-credit", "openport-to-dropped-listener", "credits-small", "portdata-rejected-ports", "empty-data-beyond-credit", "data-beyond-credit", "portdata-never-last"];
 
 /// Memory test of one flood class: N and then 3N more frames in bursts of <= 100 separated by quiescence;
 /// heap sampled at quiescence. Must run alone in the process (process-wide heap counter).
@@ -483,7 +483,24 @@ pub fn flood_test(seed: u64, class: &str, n: usize) -> RunOut {
             out.inconclusive = Some("no PortOpened".into());
             return;
         };
-        let _idle = pair;
+        let mut idle_pair = Some(pair);
+        if class_s == "portdata-never-last" {
+            // an active receiver that keeps receiving (non-final errors are skipped), dropping what it gets
+            let (tx, mut rx) = idle_pair.take().unwrap();
+            crate::sched::spawn(async move {
+                let _tx = tx;
+                loop {
+                    match rx.recv_any().await {
+                        Ok(Some(_)) => {}
+                        Ok(None) => break,
+                        Err(e) if e.is_final() => break,
+                        Err(_) => {}
+                    }
+                    crate::simnet::bump_progress();
+                }
+            });
+        }
+        let _idle = idle_pair;
         if class_s == "openport-to-dropped-listener" {
             drop(listener);
         }
@@ -494,7 +511,7 @@ pub fn flood_test(seed: u64, class: &str, n: usize) -> RunOut {
         let mut data_credit_used = 0usize;
         for target in [n, 4 * n] {
             while sent < target {
-                let burst = 100.min(target - sent);
+                let burst = if class_s == "portdata-never-last" { 16 } else { 100 }.min(target - sent);
                 for _ in 0..burst {
                     match class_s.as_str() {
                         "zero-port-portdata" => {
@@ -514,6 +531,22 @@ pub fn flood_test(seed: u64, class: &str, n: usize) -> RunOut {
                         }
                         "openport-to-dropped-listener" => {
                             peer.send(&Msg::OpenPort { client_port: next_port, wait: false, id: None }).await;
+                            next_port += 1;
+                        }
+                        "empty-data-beyond-credit" => {
+                            // ignores the credit window: a correct endpoint ends the connection with a protocol error
+                            if !peer.send_data(rport, true, true, &[]).await {
+                                peer.sink_failed = true;
+                            }
+                        }
+                        "data-beyond-credit" => {
+                            if !peer.send_data(rport, false, false, &[7]).await {
+                                peer.sink_failed = true;
+                            }
+                        }
+                        "portdata-never-last" => {
+                            // chunks of a port message that never ends; the receiver consumes them, so credits come back
+                            peer.send(&Msg::PortData { port: rport, first: sent == 0, last: false, wait: false, ports: vec![next_port], ids: None }).await;
                             next_port += 1;
                         }
                         "credits-small" => {
